@@ -64,6 +64,8 @@ def p_c01(tier):
     sh = c01_shards(tier)
     # response formatting with the capacity swept through every alignment (a value fits, the separator does not, ...): one result code per line
     sh += sw_shards("bounds", "C01", tier, 8, "--family", "format", tagp="format-align")
+    # the command list (several units, then the closing result code) while unsolicited events are triggered, flushed and refused around it
+    sh += [s for s in c11_shards(tier, prop="C01", mon="C01") if s["tag"].endswith("-run")]
     return {"shards": sh, "require": ["lines_done", "ambiguous_eq", "ambiguous_lf", "overlong", "drain_err", "notfound", "lines_hold"],
             "technique": "explicit-state model checking of the real parser (DFS with state matching over all input bytes, io refusals, handler codes)",
             "bounds": ("tables ambig/impl/A-AP-+TEST (2 orders); cap 6,16 shared+separate; grammar lines with <=1 deviation from 9 bytes, names <=3, 2 lines; all byte strings <=7 over 10 symbols" if tier == "quick" else
@@ -79,7 +81,7 @@ PLANS["C01"] = p_c01
 ALLC_WU = "OK,ERROR,DATA_OK,DATA_NEXT,NEXT,HOLD,HEXIT_OK,HEXIT_ERR,LIST,-2,9"
 ALLC_RT = "OK,ERROR,DATA_OK,DATA_NEXT,NEXT,HOLD,LIST"
 ALLE = "OK,ERROR,DATA_OK,DATA_NEXT,NEXT,HEXIT_OK,HEXIT_ERR,LIST,-2,9"
-T_CODES = "+W:W;+V:W,vu1rw/w,vi1rw/w;+R:R,vu1rw/r,vu1ro/r;+N:R;+U:U;+T:T,vu1rw@x,vi1ro,D=dd;+M:T||+e:R,vu1ro/r,vi1rw;+f:T,vu1ro,vx1wo@y,D=ee;+g:R"
+T_CODES = "+W:W;+V:W,vu1rw/w,vi1rw/w;+R:R,vu1rw/r,vu1ro/r;+N:R;+U:U;+T:T,vu1rw@x,vi1ro,D=dd;+M:T||+e:R,vu1ro/r,vi1rw;+f:T,vu1ro,vx1wo@y,D=ee;+g:R;+o:R,o"
 
 
 def c10_shards(tier, mon="C10", prop="C10"):
@@ -98,7 +100,7 @@ def c10_shards(tier, mon="C10", prop="C10"):
             for ub in ((40,) if shared else (40, 34, 48)):   # separate buffers of equal / smaller / larger size
                 sh.append(mcx("codes-evt-tok%d-sh%d-ub%d" % (tok, shared, ub), prop=prop, table=T_CODES, cap=40, shared=shared, ubuf=ub, name_alpha="+U", max_name=2, suffix_mask=1,
                               lines=1, refuse_read=1, refuse_write=1, codes_U="OK,HOLD", ecodes_R=ALLE, ecodes_T=ALLE, max_inv=inv, tok=tok, varcb_fail=1,
-                              ev="+e:R,+f:T,+g:R", act="trigger,hold", trig_budget=2, mon=mon))
+                              ev="+e:R,+f:T,+g:R,+o:R", act="trigger,hold", trig_budget=2, mon=mon))
     return sh
 
 
@@ -142,7 +144,7 @@ def duplex_cursor(tag, ring, prop, mon, budget=2, extra=None, asan=False):
 
 # Two lines, the first one's handler triggers an event, the second one carries an over-long / multi-variable argument list
 # (shared buffer: the capacity boundary of the command half is the first byte of the event half).
-T_OVER = "+W:W;+V:W,vu1rw,vi1rw,vu1rw||+u:vu1ro,vu1ro"
+T_OVER = "+W:W;+V:W,vu1rw,vi1rw,vu1rw||+u:vu1ro,vu1ro;+s:vs6ro;+d;+f:vu1ro/r"   # +s: string holding LF, quote, backslash; +d: fails at once; +f: variable read callback may fail
 
 
 def duplex_overlong(tag, ring, shared, prop, mon, extra=None):
@@ -165,6 +167,9 @@ def same_cmd(tag, ring, prop, mon, extra=None):
     return mcx(tag, ring=ring, **kw)
 
 
+T_FULL = ";".join(["+CA:UR,vu1ro"] + ["+C%c:U" % (66 + i) for i in range(23)]) + "||+e:vu1ro"   # 24 registered commands = 4 x 6 (the event command is not registered)
+
+
 def c11_shards(tier, prop="C11", mon="C11"):
     quick = tier == "quick"
     sh = []
@@ -180,6 +185,14 @@ def c11_shards(tier, prop="C11", mon="C11"):
         sh.append(duplex_cursor("duplex-cursor-r%d" % ring, ring, prop, mon, budget=2 if quick else 3))
         sh.append(duplex_overlong("duplex-overlong-r%d" % ring, ring, ring % 2 + 1, prop, mon))
         sh.append(same_cmd("duplex-samecmd-r%d" % ring, ring, prop, mon))
+    # the match table fills the command half completely (24 commands, half capacity 6): the byte after it is the first byte of the event half
+    sh.append(mcx("duplex-fulltable-even", ring=1, prop=prop, table=T_FULL, cap=6, shared=1, name_alpha="+CA", max_name=3, args_alpha="1", max_args=1, suffix_mask=3, lines=2, crlf=0,
+                  refuse_read=1, refuse_write=1, codes_U="OK", codes_R="DATA_OK", max_inv=1, ev="+e:R", act="trigger", trig_budget=2, mon=mon))
+    sh.append(mcx("duplex-fulltable-odd", ring=2, prop=prop, table=T_FULL, cap=6, shared=2, name_alpha="+CA", max_name=3, args_alpha="1", max_args=1, suffix_mask=3, lines=2, crlf=0,
+                  refuse_read=1, refuse_write=1, codes_U="OK", codes_R="DATA_OK", max_inv=1, ev="+e:R", act="trigger", trig_budget=2, mon=mon))
+    # back-pressure signalled with other values than 0 (-1, 2): anything but 1 means "not written"
+    for rw in (2, 3):
+        sh.append(duplex("duplex-r1-sh1-refuse%d" % rw, 1, 1, 2, prop, mon, extra=dict(refuse_write=rw)))
     return sh
 
 
@@ -211,6 +224,7 @@ def p_c12(tier):
         sh.append(mcx("scribble-%s" % tn, prop="C12", table=t, cap=6, name_alpha=alpha, args_alpha="1A", max_name=3 if quick else 4, max_args=7, D=1, dev=DEV,
                       lines=2, crlf=1, blank=1, refuse_read=1, refuse_write=1, scribble=1, codes_W="OK,ERROR,NEXT", codes_R="OK,DATA_OK,DATA_NEXT,ERROR",
                       codes_U="OK,ERROR,LIST", codes_T="OK,DATA_OK,ERROR", max_inv=1, mon="C12"))
+    sh += [s for s in c11_shards(tier, prop="C12", mon="C12") if s["tag"].endswith("-run") or "refuse" in s["tag"]]
     for ring in (1, 2):
         sh.append(duplex_overlong("overlong-with-event-r%d" % ring, ring, ring % 2 + 1, "C12", "C12"))
         sh.append(duplex_overlong("overlong-with-event-sep-r%d" % ring, ring, 0, "C12", "C12"))
@@ -281,6 +295,9 @@ def c14_shards(tier, prop="C14", mon="C14"):
                           suffix_mask=sm, lines=2 if quick else 3, crlf=1, refuse_read=1, refuse_write=1, codes_W="HOLD,OK", codes_R="HOLD,DATA_OK", codes_U="HOLD,OK",
                           codes_T="HOLD,OK", ecodes_R="OK,HEXIT_OK,HEXIT_ERR,DATA_OK,ERROR,LIST,9", ecodes_T="OK,ERROR,HEXIT_OK,LIST", max_inv=1, tok=1, ev="+e:R,+x:R,+y:T", act="trigger,hold", trig_budget=2 if quick else 4,
                           h_hold_exit=1, mon=mon))
+    for rw in (2, 3):
+        sh.append(mcx("hold-U-refuse%d" % rw, ring=1, prop=prop, table=T_HOLD, cap=16, shared=0, name_alpha="+U", max_name=2, args_alpha="1", max_args=1,
+                      suffix_mask=1, lines=2, refuse_read=1, refuse_write=rw, codes_U="HOLD,OK", ecodes_R="OK,HEXIT_ERR", max_inv=1, tok=1, ev="+e:R,+x:R", act="trigger,hold", trig_budget=1, mon=mon))
     # the same with a mutex interface configured (no fault injection): a spurious or repeated release must leave the lock balanced
     for nm, alpha, sm in (("W", "+W", 4), ("U", "+U", 1)):
         sh.append(mcx("hold-%s-mutex" % nm, ring=1, prop=prop, table=T_HOLD, cap=16, shared=0, name_alpha=alpha, max_name=2, args_alpha="1", max_args=1,
@@ -385,6 +402,8 @@ def c20_shards(tier):
         sh.append(mcx("history-events-r%d" % ring, ring=ring, prop="C20", table=T_HIST + "||+e:vu1ro;+f:R", cap=8, shared=shared, name_alpha="+SRUA", max_name=3, args_alpha="1", max_args=1,
                       D=0, lines=0, crlf=1, blank=1, refuse_read=1, refuse_write=1, codes_W="OK", codes_R="DATA_OK", codes_U="OK", codes_T="DATA_OK", ecodes_R="DATA_OK,OK",
                       max_inv=1, ev="+e:R,+f:R", h_trigger=1, mon="C20"))
+    # hold scenario: release requests made while not held (event handler return codes, API calls) followed by lines that hold
+    sh += [dict(s, tag="history-" + s["tag"]) for s in c14_shards(tier, prop="C20", mon="C20,C14") if s["tag"] in ("hold-U-r1", "hold-R-r1", "hold-W-r2")]
     return sh
 
 
@@ -411,8 +430,11 @@ def c09_shards(tier):
                       act="flags", flag_budget=3 if quick else 0, mon="C09"))
     # descriptor sweeps with disable subsets and disabled groups, alone and with a second parser object serviced in between
     sh += sw_shards("tables", "C09", tier, 8, "--family", "small", "--maxk", 2 if quick else 3, "--interfere", 1, tagp="tables-2obj")
+    sh += sw_shards("tables", "C09", tier, 8, "--family", "small", "--maxk", 2 if quick else 3, "--interfere", 2, tagp="tables-2objline")
     sh += sw_shards("tables", "C09", tier, 8, "--family", "lanes", "--interfere", 1, tagp="lanes-2obj")
+    sh += sw_shards("tables", "C09", tier, 8, "--family", "lanes", "--interfere", 2, tagp="lanes-2objline")
     sh += sw_shards("describe", "C09", tier, 8, "--family", "shapes", "--pairs", 1, "--interfere", 1, tagp="shapes-2obj")
+    sh += sw_shards("describe", "C09", tier, 8, "--family", "shapes", "--pairs", 1, "--interfere", 2, tagp="shapes-2objline")
     return sh
 
 
@@ -441,9 +463,17 @@ def p_c02(tier):
     sh = sw_shards("tables", "C02", tier, 16 if quick else 48, "--family", "small", "--maxk", 3 if quick else 4)
     sh += sw_shards("tables", "C02", tier, 4, "--family", "alphabet")
     sh += sw_shards("tables", "C02", tier, 16, "--family", "lanes")
-    # the same with a second, unrelated parser object serviced between all calls (module-level state shared between objects)
+    # the same with a second, unrelated parser object serviced between all calls (module-level state shared between objects):
+    # '2obj' = one call of the other object per call, '2objline' = the other object receives, processes and answers a whole line per call
     sh += sw_shards("tables", "C02", tier, 8, "--family", "small", "--maxk", 2 if quick else 3, "--interfere", 1, tagp="tables-2obj")
+    sh += sw_shards("tables", "C02", tier, 8, "--family", "small", "--maxk", 2 if quick else 3, "--interfere", 2, tagp="tables-2objline")
     sh += sw_shards("tables", "C02", tier, 8, "--family", "lanes", "--interfere", 1, tagp="lanes-2obj")
+    sh += sw_shards("tables", "C02", tier, 8, "--family", "lanes", "--interfere", 2, tagp="lanes-2objline")
+    # unsolicited events (READ and TEST, with and without variables) popped at every point of the name search of exact and abbreviated names
+    for ring in (1, 2):
+        sh.append(mcx("search-with-events-r%d" % ring, ring=ring, prop="C02", table="+AB:U;+CD:UR,vu1rw;+EF:UW;+EG:U;Z:U||+t:T,vu1ro,D=d;+n:T,D=n", cap=12, shared=ring - 1, name_alpha="+ACEBFZ", max_name=3,
+                      args_alpha="1", max_args=1, suffix_mask=7, lines=1, refuse_read=1, refuse_write=1, codes_U="OK", codes_R="DATA_OK", codes_W="OK", ecodes_T="DATA_OK", max_inv=1,
+                      ev="+t:T,+t:R,+n:T", act="trigger", trig_budget=2, mon="C02"))
     return {"shards": sh, "require": ["runs", "implicit_hits", "ambiguous_lf", "ambiguous_eq", "notfound", "test_forms"],
             "technique": "exhaustive enumeration of descriptors and typed names on the real parser, compared with a reference transcription of the resolution rule",
             "bounds": "all tables of 1..%d commands named over {A,B}^(1..3) x every disable subset x optional implicit-write member x all typed names {A,B}^(1..4) x 4 suffixes; "
@@ -462,6 +492,9 @@ def p_c04(tier):
     # multi-variable WRITE parsed over several cat_service calls while unsolicited events start, flush and finish in between
     for ring in (1, 2):
         sh.append(duplex_overlong("write-with-events-r%d" % ring, ring, ring % 2 + 1, "C04", "C04", extra=dict(cap=12, max_args=6, lines=1, act="trigger", trig_budget=3)))
+        sh.append(duplex_overlong("write-with-failing-events-r%d" % ring, ring, ring % 2 + 1, "C04", "C04", extra=dict(cap=12, max_args=6, lines=1, act="trigger", trig_budget=2, ev="+d:R,+f:R,+s:R", varcb_fail=1, h_trigger=0)))
+    # digit counts at and around 2^8, 2^9, 2^16 and 2^17 (counters narrower than the buffer capacity)
+    sh += sw_shards("numeric", "C04", tier, 12, "--family", "huge", tagp="huge")
     return {"shards": sh, "require": ["runs", "wvar_ok", "wvar_err"],
             "technique": "exhaustive enumeration of argument texts on the real parser; acceptance decided on the text by arbitrary-precision comparison in the reference",
             "bounds": "all texts <=%d over 13 symbols for INT/UINT/HEX x width 1,2,4; boundary family: (2^7,2^8,2^15,2^16,2^31,2^32,2^63,2^64,10^19,10^20)+-3 and q*2^64+r (q<=16), "
@@ -478,6 +511,8 @@ def p_c05(tier):
     for ring in (1, 2):
         sh.append(mcx("bufwrite-with-events-r%d" % ring, ring=ring, prop="C05", table="+V:W,vb2rw,vs3rw,vb1rw||+u:vu1ro,vu1ro", cap=16, shared=ring % 2 + 1, name_alpha="+V", max_name=2,
                       args_alpha="A1,\"", max_args=6, suffix_mask=4, lines=1, refuse_read=1, refuse_write=1, codes_W="OK", max_inv=1, ev="+u:R", act="trigger", trig_budget=2, mon="C05"))
+        sh.append(mcx("bufwrite-with-failing-events-r%d" % ring, ring=ring, prop="C05", table="+V:W,vb1rw,vs3rw,vb2rw||+d;+f:vu1ro/r", cap=16, shared=ring % 2 + 1, name_alpha="+V", max_name=2,
+                      args_alpha="A1,\"", max_args=5, suffix_mask=4, lines=1, refuse_read=1, refuse_write=0, codes_W="OK", max_inv=1, ev="+d:R,+f:R", varcb_fail=1, act="trigger", trig_budget=2, mon="C05"))
     return {"shards": sh, "require": ["runs", "wvar_ok", "wvar_err", "units_evt"],
             "technique": "exhaustive enumeration of argument texts on the real parser against a reference decoder; canaries after every variable; plus explicit-state exploration of buffer WRITEs interleaved with unsolicited events",
             "bounds": "hex buffers and strings, data_size 1..8,16,63,64, access RW/RO/WO, argument positions 1..3: k legal units (k=0..data_size+1, plain/escaped mixes) followed by every byte 1..255 "
@@ -493,6 +528,8 @@ def p_c06(tier):
     sh += [s for s in c10_shards("quick", mon="C06", prop="C06") if "cmd-R" in s["tag"] or "cmd-T" in s["tag"] or "evt" in s["tag"]]
     # every command shape (handler subsets x flags x variable profiles, also '.var set, var_num 0') with every request form: '?' after '=' reaches the write handler verbatim unless a TEST form exists
     sh += sw_shards("describe", "C06", tier, 4, "--family", "shapes", "--pairs", 0, tagp="shapes")
+    for ring in (1, 2):
+        sh.append(duplex_overlong("args-with-string-event-r%d" % ring, ring, ring - 1, "C06", "C06", extra=dict(cap=10, max_args=6, lines=2, ev="+s:R,+u:R", codes_W="OK,NEXT", h_trigger=1)))
     return {"shards": sh, "require": ["runs", "overlong", "lines_ok"],
             "technique": "exhaustive positional byte sweep on the real parser (write handlers) and explicit-state exploration of the return-code scenario (read/test handlers of both machines)",
             "bounds": "caps 6,7,8,16 (thorough also 24,32) in separate, shared-even and shared-odd layouts; plain, implicit and variable-backed write commands; argument length 0..3*cap with every byte value (except LF) at every position; "
@@ -508,6 +545,11 @@ def p_c07(tier):
     sh = sw_shards("roundtrip", "C07", tier, 32, "--family", "numeric")
     sh += sw_shards("roundtrip", "C07", tier, 8, "--family", "buffers")
     sh += sw_shards("roundtrip", "C07", tier, 8, "--family", "mixes")
+    # formatted READ responses (command and event) and WRITE argument lists while the other machine works, odd-sized shared buffer included
+    sh.append(duplex("duplex-r1-oddshared", 1, 2, 2, "C07", "C07"))
+    sh.append(duplex("duplex-r2-shared", 2, 1, 2, "C07", "C07"))
+    for ring in (1, 2):
+        sh.append(duplex_overlong("write-with-events-odd-r%d" % ring, ring, 2, "C07", "C07", extra=dict(cap=7, max_args=7, lines=1, act="trigger", trig_budget=2, ev="+u:R,+s:R")))
     if not quick:
         for t in (0, 1, 2):
             sh += sw_shards("roundtrip", "C07", tier, 64, "--family", "lean32", "--type", t, tagp="lean32-t%d" % t)
@@ -526,6 +568,11 @@ def p_c08(tier):
     sh = sw_shards("access", "C08", tier, 16)
     sh += sw_shards("numeric", "C08", tier, 16, "--family", "bounds")
     sh += sw_shards("buffers", "C08", tier, 32)
+    # the same with a second, unrelated parser object (writable string variable) serviced between all calls
+    sh += sw_shards("access", "C08", tier, 8, "--interfere", 1, tagp="access-2obj")
+    sh += sw_shards("access", "C08", tier, 8, "--interfere", 2, tagp="access-2objline")
+    sh += sw_shards("buffers", "C08", tier, 16, "--lite", 1, "--interfere", 1, tagp="buffers-2obj")
+    sh += sw_shards("buffers", "C08", tier, 16, "--lite", 1, "--interfere", 2, tagp="buffers-2objline")
     return {"shards": sh, "require": ["runs", "rvar", "wvar_ok", "wvar_err", "test_forms"],
             "technique": "exhaustive enumeration over access-mode assignments on the real parser; read-only storage byte-compared after every API call; write-only contents varied (0x00/0xA5/'g') under an oracle that never reads them",
             "bounds": "three-variable commands: 5 leading types x all 27 access assignments x read/write handler subsets x need_all x 3 write-only fill patterns x 17 request lines (all forms, valid, invalid, over-range, missing), "
@@ -541,6 +588,9 @@ def p_c19(tier):
     sh = sw_shards("describe", "C19", tier, 16, "--family", "vars", "--maxlen", 3, "--restricted3", 1 if quick else 0)
     sh += sw_shards("describe", "C19", tier, 4, "--family", "shapes", "--pairs", 0, tagp="shapes1")
     sh += sw_shards("describe", "C19", tier, 16, "--family", "shapes", "--pairs", 1 if quick else 2, tagp="shapes2")
+    # a second parser object with other group boundaries printing its own command list between all calls
+    sh += sw_shards("describe", "C19", tier, 8, "--family", "shapes", "--pairs", 1, "--interfere", 1, tagp="shapes-2obj")
+    sh += sw_shards("describe", "C19", tier, 8, "--family", "shapes", "--pairs", 1, "--interfere", 2, tagp="shapes-2objline")
     # TEST text regenerated after NEXT / DATA_NEXT of a test handler (both machines, commands with two variables)
     sh += [s for s in c10_shards(tier, mon="C19", prop="C19") if "cmd-T" in s["tag"] or "evt" in s["tag"]]
     # the command list while unsolicited events are triggered, flushed and refused around it
@@ -566,6 +616,7 @@ def p_c03(tier):
         sh += sw_shards("bounds", "C03", tier, max(2, n // 4), "--family", fam, tagp="canary-bounds")
     sh += sw_shards("buffers", "C03", tier, 32 if quick else 64, "--lite", 1 if quick else 0, asan=True, tagp="asan-buffers")
     sh += sw_shards("args", "C03", tier, 36, "--lite", 1 if quick else 0, asan=True, tagp="asan-args")
+    sh += sw_shards("buffers", "C03", tier, 8, "--family", "residue", asan=True, tagp="asan-residue")
     sh += sw_shards("numeric", "C03", tier, 16, "--family", "bounds", asan=True, tagp="asan-numeric")
     sh += sw_shards("numeric", "C03", tier, 13, "--family", "all", "--maxlen", 4 if quick else 5, asan=True, tagp="asan-numeric")
     sh += sw_shards("describe", "C03", tier, 8, "--family", "vars", "--maxlen", 2, asan=True, tagp="asan-describe")
@@ -601,9 +652,9 @@ PLANS["C03"] = p_c03
 # ---------------------------------------------------------------- C17 threads
 
 
-def thr(ring, prod, ops, opset, bound, shard=0, nshards=1):
-    return {"tag": "threads-r%d-p%d-o%d-s%d-b%d-%d" % (ring, prod, ops, opset, bound, shard), "bin": "threads_r%d" % ring,
-            "args": ["--prop", "C17", "--producers", prod, "--ops", ops, "--opset", opset, "--bound", bound, "--shard", shard, "--nshards", nshards]}
+def thr(ring, prod, ops, opset, bound, shard=0, nshards=1, variant=0):
+    return {"tag": "threads-r%d-p%d-o%d-s%d-b%d-v%d-%d" % (ring, prod, ops, opset, bound, variant, shard), "bin": "threads_r%d" % ring,
+            "args": ["--prop", "C17", "--producers", prod, "--ops", ops, "--opset", opset, "--bound", bound, "--shard", shard, "--nshards", nshards, "--variant", variant]}
 
 
 def p_c17(tier):
@@ -616,6 +667,10 @@ def p_c17(tier):
         for i in range(4):
             sh.append(thr(2, 3, 2, 0, 2, i, 4))
             sh.append(thr(1, 3, 2, 3, 2, i, 4))
+        # hold entered by the read handler of a command that is also raised as an unsolicited READ event by a producer
+        for ring in (1, 2):
+            for opset in (0, 1):
+                sh.append(thr(ring, 2, 3, opset, 2, variant=1))
     else:
         for ring in (1, 2, 3, 8):
             for opset in (0, 1, 2, 3):
@@ -624,6 +679,9 @@ def p_c17(tier):
                     sh.append(thr(ring, 3, 3, opset, 2, i, 4))
         for i in range(16):
             sh.append(thr(2, 3, 2, 0, 3, i, 16))
+        for ring in (1, 2, 3):
+            for opset in (0, 1, 2, 3):
+                sh.append(thr(ring, 2, 4, opset, 3, variant=1))
         # auxiliary, not deciding: the same bodies free-running under ThreadSanitizer (sampling)
         for ring in (1, 2, 8):
             for prod in (2, 3, 4):
@@ -636,6 +694,7 @@ def p_c17(tier):
             "assumptions": ["the user's lock provides mutual exclusion with acquire/release ordering; memory orderings below the mutex are not modelled",
                             "thorough tier also runs an auxiliary free-running ThreadSanitizer pass of the same bodies (sampling; a report is a violation, silence is not evidence)",
                             "cat_get_processed_command and cat_is_unsolicited_event_buffered are documented as unprotected and are not called",
+                            "variant 1: the first line is a READ request whose handler holds, and producer 1 raises unsolicited READ events for that same command",
                             "scheduling points: lock() before acquisition, first io/handler callback inside each cat_service call, thread end; switching is also possible whenever the service thread spins without effect"]}
 
 
